@@ -56,7 +56,20 @@ def argmax(
     """
     a = numpoly.aspolynomial(a)
     options = numpoly.get_options()
+    # The proxy ranks tied elements by position, so its largest value marks the
+    # last of them: rank the reversed array to get the first occurrence.
+    if axis is None:
+        a, axis_ = a.ravel(), 0
+    else:
+        axis_ = axis
+    if not a.shape:
+        a = a.ravel()
+    reverse = (slice(None),) * (axis_ % a.ndim) + (slice(None, None, -1),)
     proxy = numpoly.sortable_proxy(
-        a, graded=options["sort_graded"], reverse=options["sort_reverse"]
+        a[reverse], graded=options["sort_graded"], reverse=options["sort_reverse"]
     )
-    return numpy.argmax(proxy, axis=axis, out=out)
+    index = a.shape[axis_] - 1 - numpy.argmax(proxy, axis=axis_)
+    if out is not None:
+        out[...] = index
+        return out
+    return index
